@@ -2,23 +2,65 @@
 Helper lemmas for C09: what the dump (`observe`) shows of an invariant state, and the bridge from
 the propositional authorisation conditions to the executable checker of `PvModel/VownerSpec.lean`.
 -/
-import PvProofs.Lemmas.VownerOps
+import PvProofs.Lemmas.VownerEffects
 
 namespace PvProofs.VownerL
 open PvModel PvModel.Ledger PvModel.Vowner
 
-theorem observeScope_of_inv {s : State} (hinv : Inv s) (id : ScopeId) :
+/-! ### the two queries on a well-formed token -/
+
+/-- the `Scope` query's value owner: the token's holder when the scope record exists -/
+theorem queryScopeValueOwner_of_holderIs {s : State} {id : ScopeId} {o : Option Addr}
+    (ho : HolderIs s.ledger id o) :
+    queryScopeValueOwner s id = if hasScope s id = true then o.getD "" else "" := by
+  unfold queryScopeValueOwner
+  rw [← findScope_isSome, denomOwner_of_holderIs ho]
+  cases findScope s id with
+  | none => rfl
+  | some e => cases o <;> rfl
+
+/-- the `ValueOwnership` query of account `a` lists scope `id` exactly when `a` holds its token -/
+theorem mem_queryValueOwnership {s : State} {id : ScopeId} {o : Option Addr} (ho : HolderIs s.ledger id o)
+    (hsd : isScopeDenom id = true) (a : Addr) : id ∈ queryValueOwnership s a ↔ o = some a :=
+  mem_scopesForValueOwner ho hsd
+
+theorem listedBy_of_holderIs {s : State} {id : ScopeId} {o : Option Addr} (ho : HolderIs s.ledger id o)
+    (hsd : isScopeDenom id = true) : listedBy s id = (holderList o).map (·.1) := by
+  unfold listedBy
+  have hp : ∀ a, (queryValueOwnership s a).contains id = true ↔ o = some a := fun a => by
+    rw [List.contains_iff_mem]; exact mem_queryValueOwnership ho hsd a
+  cases o with
+  | none =>
+    simp only [holderList, List.map_nil]
+    apply List.filter_eq_nil_iff.mpr
+    intro a _ hc
+    exact absurd ((hp a).mp hc) (by simp)
+  | some x =>
+    have hx : bal s.ledger x id = 1 := by have := ho.2 x; simpa using this
+    rw [← List.filterMap_eq_filter]
+    simp only [holderList, List.map_cons, List.map_nil]
+    apply filterMap_single (nodup_dedup _) (x := x)
+    · exact mem_dedup.mpr (bal_ne_zero_mem (by rw [hx]; decide))
+    · have := (mem_queryValueOwnership ho hsd x).mpr rfl
+      simp [Option.guard, this]
+    · intro y hy
+      have : ¬ id ∈ queryValueOwnership s y := fun hc => by
+        have := (mem_queryValueOwnership ho hsd y).mp hc; injection this with this; exact hy this.symm
+      simp [Option.guard, this]
+
+theorem observeScope_of_inv {s : State} (hinv : Inv s) (id : ScopeId) (hsd : isScopeDenom id = true) :
     ∃ o, HolderIs s.ledger id o ∧ holderOf (observeScope s id) = o ∧
       tokenClause (observeScope s id) = none ∧
       (observeScope s id).supply = (if o.isSome then 1 else 0) ∧
       (observeScope s id).holders = holderList o := by
-  obtain ⟨o, ho, hne, hsc⟩ := hinv id
+  obtain ⟨o, ho, hne, hsc⟩ := hinv id hsd
   refine ⟨o, ho, ?_, ?_, ho.1, holdersOf_of_holderIs ho⟩
   · unfold holderOf observeScope
     simp only [holdersOf_of_holderIs ho]
     cases o <;> rfl
   · unfold tokenClause supplyOk holdersOk voOk scopeOk queriesOk holderOf observeScope
-    simp only [holdersOf_of_holderIs ho, denomOwner_of_holderIs ho, ho.1]
+    simp only [holdersOf_of_holderIs ho, denomOwner_of_holderIs ho, ho.1,
+      queryScopeValueOwner_of_holderIs ho, listedBy_of_holderIs ho hsd]
     cases o with
     | none => simp [holderList]
     | some x => simp [holderList, hsc rfl]
@@ -39,10 +81,11 @@ theorem find_observe {s : State} {ids : List ScopeId} {id : ScopeId} (h : id ∈
       · exact ih h1
 
 theorem preHolder_observe {s : State} (hinv : Inv s) {ids : List ScopeId} {id : ScopeId} (h : id ∈ ids)
+    (hsd : isScopeDenom id = true)
     {o : Option Addr} (ho : HolderIs s.ledger id o) : preHolder (observe s ids) id = o := by
   unfold preHolder observe
   simp only [find_observe h, Option.bind_some]
-  obtain ⟨o1, ho1, h1, _⟩ := observeScope_of_inv hinv id
+  obtain ⟨o1, ho1, h1, _⟩ := observeScope_of_inv hinv id hsd
   rw [h1]; exact holderIs_unique ho1 ho
 
 theorem authorises_of_consents {s : State} {ids : List ScopeId} {st : StepInfo} {h : Addr}
@@ -84,12 +127,12 @@ theorem depositAuthorised_of {s : State} {ids : List ScopeId} {st : StepInfo} {h
       obtain ⟨x, hx, h1⟩ := hc m hm hr
       exact Or.inr (List.any_eq_true.mpr ⟨x, hx, h1⟩)
 
-theorem tokens_ok {s : State} (hinv : Inv s) (ids : List ScopeId) :
+theorem tokens_ok {s : State} (hinv : Inv s) (ids : List ScopeId) (hids : ∀ id ∈ ids, isScopeDenom id = true) :
     (observe s ids).scopes.findSome? tokenClause = none := by
   unfold observe
   simp only [List.findSome?_eq_none_iff, List.mem_map]
-  rintro o ⟨id, _, rfl⟩
-  obtain ⟨_, _, _, h, _⟩ := observeScope_of_inv hinv id
+  rintro o ⟨id, hid, rfl⟩
+  obtain ⟨_, _, _, h, _⟩ := observeScope_of_inv hinv id (hids id hid)
   exact h
 
 end PvProofs.VownerL
